@@ -285,6 +285,36 @@ theorem decode_sound (s : List Char) (a b : Int) (h : decodeRange s = .ok (a, b)
       · rw [if_neg ht] at h; cases h
   · cases h
 
+theorem newline_not_digit : isDigit '\n' = false := by decide
+
+/-- Completeness of the reader: EVERY string `digits ":" digits` (leading zeros allowed, optionally one final line
+    feed) is accepted with the values of the two digit runs, or refused with `OverflowError` when a value does not fit
+    int64.  With `decode_sound`: the reader accepts exactly this grammar. -/
+theorem decode_complete (d1 d2 tail : List Char) (h1 : d1 ≠ []) (h2 : d2 ≠ [])
+    (hd1 : ∀ c ∈ d1, isDigit c = true) (hd2 : ∀ c ∈ d2, isDigit c = true) (ht : tail = [] ∨ tail = ['\n']) :
+    decodeRange (d1 ++ ':' :: d2 ++ tail) =
+      if digitsValue d1 < 2 ^ 63 ∧ digitsValue d2 < 2 ^ 63 then .ok ((digitsValue d1 : Int), (digitsValue d2 : Int))
+      else .error .overflow := by
+  have e0 : d1 ++ ':' :: d2 ++ tail = d1 ++ ':' :: (d2 ++ tail) := by simp
+  obtain ⟨t1, t2⟩ := takeWhile_run isDigit d1 ':' (d2 ++ tail) hd1 colon_not_digit
+  have ht2 : (d2 ++ tail).takeWhile isDigit = d2 ∧ (d2 ++ tail).dropWhile isDigit = tail := by
+    rcases ht with rfl | rfl
+    · rw [List.append_nil]; exact takeWhile_all isDigit d2 hd2
+    · exact takeWhile_run isDigit d2 '\n' [] hd2 newline_not_digit
+  obtain ⟨t3, t4⟩ := ht2
+  rw [e0]
+  unfold decodeRange
+  simp only [t1, t2, t3, t4]
+  rw [if_neg (by simp [h1, h2]), if_pos ht]
+  unfold int64OfDigits
+  by_cases c1 : digitsValue d1 < 2 ^ 63
+  · by_cases c2 : digitsValue d2 < 2 ^ 63
+    · simp only [c1, c2, if_true, and_self, bind, Except.bind, pure, Except.pure]
+    · simp only [c1, c2, if_true, if_false, and_false, bind, Except.bind]
+  · simp only [c1, if_false, false_and, bind, Except.bind]
+
+example : decodeRange "007:08\n".toList = .ok (7, 8) := by decide
+
 
 /-! ## Legacy files -/
 
@@ -915,5 +945,92 @@ example : (∀ r ∈ [((10 : Int), (18 : Int)), (20, 28), (30, 38)], r.1 ≤ r.2
     [((10 : Int), (18 : Int)), (20, 28), (30, 38)].Pairwise (fun r s => r.1 ≤ s.1 ∧ r.2 ≤ s.2) := by decide
 /-- No lines: NumPy's `min` of an empty array raises (`ValueError`). -/
 example : kymoRange [] = none := rfl
+
+/-! ## `export_tiff` as a whole -/
+
+/-- No timestamp ranges: `RuntimeError("Can't export TIFF if there are no images")`, before anything else is looked at. -/
+theorem export_tiff_no_images (dtype : Option DType) (clip : Bool) (frames : List (List Rat)) (exp : List (Int × Int)) :
+    exportTiff dtype clip frames [] exp = .error .runtime := rfl
+
+/-- The refusal is global: with a dtype and without `clip`, ONE value that does not fit — in whichever frame — and
+    no page at all is written. -/
+theorem export_tiff_all_or_nothing (d : DType) (frames : List (List Rat)) (dead exp : List (Int × Int))
+    (hd : dead ≠ []) (hne : frames.flatten ≠ []) (hbad : ¬ ∀ v ∈ frames.flatten, InRange d v) :
+    exportTiff (some d) false frames dead exp = .error .runtime := by
+  have h1 := castFrames_flatten d false frames
+  rw [cast_refuses d frames.flatten hne hbad] at h1
+  have h2 : castFrames d false frames = .error .runtime := by
+    cases hc : castFrames d false frames with
+    | error e => rw [hc] at h1; simp [Except.map] at h1; rw [h1]
+    | ok fr => rw [hc] at h1; simp [Except.map] at h1
+  unfold exportTiff framesWritten
+  rw [if_neg (by intro h0; exact hd (List.eq_nil_of_length_eq_zero h0))]
+  simp only [h2]
+
+/-- One page per element of `zip(frames, ranges, exposure_times)`: the shortest of the three decides. -/
+theorem export_tiff_page_count (dtype : Option DType) (clip : Bool) (frames : List (List Rat))
+    (dead exp : List (Int × Int)) (pages : List TiffPage) (h : exportTiff dtype clip frames dead exp = .ok pages) :
+    pages.length = min frames.length (min dead.length exp.length) := by
+  obtain ⟨_, _, fr, hfr, rfl⟩ := exportTiff_ok dtype clip frames dead exp pages h
+  have := framesWritten_length dtype clip frames fr hfr
+  simp [exposureTimesMs, this]
+
+/-- The round trip of one export at the level of the mixin: when the hooks return as many ranges as frames, every
+    frame gets a page; reading the page's DateTime tag gives back its frame range (with dead time), reading its
+    `"Exposure time (ms)"` gives back `stop − start` of its exposure range (without dead time), and its pixels are the
+    cast of that frame — for all non-negative int64 timestamps and exposures up to `10^15` ns. -/
+theorem export_tiff_roundtrip (dtype : Option DType) (clip : Bool) (frames : List (List Rat))
+    (dead exp : List (Int × Int)) (pages : List TiffPage) (h : exportTiff dtype clip frames dead exp = .ok pages)
+    (hl1 : frames.length = dead.length) (hl2 : exp.length = dead.length)
+    (hd : ∀ r ∈ dead, 0 ≤ r.1 ∧ r.1 < 2 ^ 63 ∧ 0 ≤ r.2 ∧ r.2 < 2 ^ 63)
+    (he : ∀ r ∈ exp, (r.2 - r.1).natAbs ≤ 10 ^ 15) :
+    pages.map (fun p => decodeRange p.dt) = dead.map .ok ∧
+      pages.map (fun p => exposureNs p.ms) = exp.map (fun r => r.2 - r.1) ∧
+      framesWritten dtype clip frames = .ok (pages.map (·.img)) := by
+  obtain ⟨_, _, fr, hfr, rfl⟩ := exportTiff_ok dtype clip frames dead exp pages h
+  have hlen := framesWritten_length dtype clip frames fr hfr
+  obtain ⟨hmslen, hms⟩ := exposure_times_roundtrip exp he
+  have hz2 : (dead.zip (exposureTimesMs exp)).length = dead.length := by
+    rw [List.length_zip, hmslen, hl2]; exact Nat.min_self _
+  have p1 : (fr.zip (dead.zip (exposureTimesMs exp))).map Prod.snd = dead.zip (exposureTimesMs exp) :=
+    List.map_snd_zip (by rw [hz2, hlen, hl1])
+  have p0 : (fr.zip (dead.zip (exposureTimesMs exp))).map Prod.fst = fr :=
+    List.map_fst_zip (by rw [hz2, hlen, hl1])
+  have p2 : (dead.zip (exposureTimesMs exp)).map Prod.fst = dead :=
+    List.map_fst_zip (by rw [hmslen, hl2])
+  have p3 : (dead.zip (exposureTimesMs exp)).map Prod.snd = exposureTimesMs exp :=
+    List.map_snd_zip (by rw [hmslen, hl2])
+  refine ⟨?_, ?_, ?_⟩
+  · rw [List.map_map]
+    have : ∀ t ∈ fr.zip (dead.zip (exposureTimesMs exp)),
+        ((fun p : TiffPage => decodeRange p.dt) ∘ fun t : List Rat × (Int × Int) × Rat =>
+          (⟨encodeRange t.2.1.1 t.2.1.2, t.2.2, t.1⟩ : TiffPage)) t = (Except.ok ∘ Prod.fst ∘ Prod.snd) t := by
+      intro t ht
+      have hm : t.2.1 ∈ dead := by
+        have h2 : t.2 ∈ dead.zip (exposureTimesMs exp) := (List.of_mem_zip (a := t.1) (b := t.2) ht).2
+        exact (List.of_mem_zip (a := t.2.1) (b := t.2.2) h2).1
+      obtain ⟨a0, a1, b0, b1⟩ := hd _ hm
+      simp only [Function.comp]
+      exact datetime_roundtrip _ _ a0 b0 a1 b1
+    rw [List.map_congr_left this, ← List.map_map, ← List.map_map, p1, p2]
+  · rw [List.map_map]
+    have : ((fun p : TiffPage => exposureNs p.ms) ∘ fun t : List Rat × (Int × Int) × Rat =>
+        (⟨encodeRange t.2.1.1 t.2.1.2, t.2.2, t.1⟩ : TiffPage)) = exposureNs ∘ Prod.snd ∘ Prod.snd := rfl
+    rw [this, ← List.map_map, ← List.map_map, p1, p3, hms]
+  · rw [List.map_map]
+    have : ((fun p : TiffPage => p.img) ∘ fun t : List Rat × (Int × Int) × Rat =>
+        (⟨encodeRange t.2.1.1 t.2.1.2, t.2.2, t.1⟩ : TiffPage)) = Prod.fst := rfl
+    rw [this, p0, hfr]
+
+/-- Non-vacuity / the statements on one input: two frames, the second holds 300. -/
+example : exportTiff (some .u8) false [[1, 2], [3, 300]] [(10, 20), (20, 30)] [(10, 15), (20, 25)] = .error .runtime := by
+  decide +kernel
+example : (exportTiff (some .u8) true [[1, 2], [3, 300]] [(10, 20), (20, 30)] [(10, 15), (20, 27)]).toOption.map
+    (fun pages => (pages.map (·.img), pages.map (fun p => decodeRange p.dt), pages.map (fun p => exposureNs p.ms)))
+    = some ([[1, 2], [3, 255]], [.ok (10, 20), .ok (20, 30)], [5, 7]) := by decide +kernel
+/-- `zip` stops at the shortest list: a third frame without a range is silently not written (the providers of pylake
+    always return one range per frame; see `export_tiff_roundtrip` for that case). -/
+example : (exportTiff none false [[1], [2], [3]] [(10, 20), (20, 30)] [(10, 15), (20, 25)]).toOption.map List.length
+    = some 2 := by decide +kernel
 
 end Verif.C18
